@@ -409,6 +409,14 @@ class ConfigParser(object):
 
     self._default_range_start = MultiRangeDefinitionTuple(u">", 0.0)
 
+  def _set_value(self, cp, override):
+    try:
+      cp[override.section][override.key] = override.value.strip()
+    except ValueError as e:
+      # e.g. a '$' in the value that does not start a ${...} placeholder
+      raise ConfigOverrideException("Value for [{section}]: '{key}' is not valid: {value} ({msg})".format(
+        section = override.section, key = override.key, value = override.value, msg = e))
+
   def _init_config_parser(self, fp, overrides, additional):
     cp = _RawConfigParser()
     # cp.readfp(fp)
@@ -444,7 +452,7 @@ class ConfigParser(object):
           cp.remove_section(override.section)
       else:
         # blanks around a value are not significant in a configuration file ('key :  value ')
-        cp[override.section][override.key] = override.value.strip()
+        self._set_value(cp, override)
 
     # Add additional values
     for override in additional:
@@ -457,7 +465,7 @@ class ConfigParser(object):
       if not cp.has_section(override.section) and override.section != cp.default_section:
         cp.add_section(override.section)
       # blanks around a value are not significant in a configuration file ('key :  value ')
-      cp[override.section][override.key] = override.value.strip()
+      self._set_value(cp, override)
 
     return cp
 
